@@ -150,6 +150,44 @@ static void op_isapprox(Ctx& c) {
   o.end();
 }
 
+#ifdef REC_IS_BUNDLE
+// --- Bundle = direct product (C11): static index tables, element<i>() aliasing, element-wise equality
+template <class A> static void put_arr(Out& o, const char* k, const A& a) { o.key(k); std::fputc('[', o.f); for (size_t i = 0; i < a.size(); ++i) std::fprintf(o.f, "%s%d", i ? "," : "", (int)a[i]); std::fputc(']', o.f); }
+template <std::size_t... I> static void layout_impl(Ctx& c, std::index_sequence<I...>) {
+  G X = draw_element<G>("generic", "1", "any", "generic", c.r); T t = draw_tangent<G>("generic", "1", "generic", c.r);
+  HEAD("layout")
+  put_arr(o, "DimIdx", manif::internal::traits<G>::DimIdx); put_arr(o, "DoFIdx", manif::internal::traits<G>::DoFIdx);
+  put_arr(o, "RepIdx", manif::internal::traits<G>::RepSizeIdx); put_arr(o, "TraIdx", manif::internal::traits<G>::TraIdx);
+  put_arr(o, "AlgIdx", manif::internal::traits<T>::AlgIdx);
+  o.num("Dim", G::Dim); o.num("DoF", G::DoF); o.num("Rep", G::RepSize); o.num("Tra", G::Transformation::RowsAtCompileTime); o.num("Alg", T::LieAlg::RowsAtCompileTime);
+  std::vector<long> eo = { (long)(X.template element<I>().data() - X.data())... };
+  std::vector<long> to = { (long)(t.template element<I>().data() - t.data())... };
+  o.key("elem_off"); std::fputc('[', o.f); for (size_t i = 0; i < eo.size(); ++i) std::fprintf(o.f, "%s%ld", i ? "," : "", eo[i]); std::fputc(']', o.f);
+  o.key("telem_off"); std::fputc('[', o.f); for (size_t i = 0; i < to.size(); ++i) std::fprintf(o.f, "%s%ld", i ? "," : "", to[i]); std::fputc(']', o.f);
+  o.end();
+}
+static void op_layout(Ctx& c) { layout_impl(c, std::make_index_sequence<G::BundleSize>()); }
+// the same operation applied to each element on its own, concatenated in element order
+template <std::size_t... I> static void belem_impl(Ctx& c, std::index_sequence<I...>) {
+  G X = elemA(c), Y = elemD(c); T t = tanB(c);
+  auto cat = [](std::initializer_list<Eigen::Matrix<S, Eigen::Dynamic, 1>> l) { int n = 0; for (auto& v : l) n += v.size(); Eigen::Matrix<S, Eigen::Dynamic, 1> r(n); int k = 0; for (auto& v : l) { r.segment(k, v.size()) = v; k += v.size(); } return r; };
+  using DV = Eigen::Matrix<S, Eigen::Dynamic, 1>;
+  HEAD("belem") o.vec("a", X.coeffs()); o.vec("b", Y.coeffs()); o.vec("t", t.coeffs());
+  o.vec("compose", X.compose(Y).coeffs());   o.vec("e_compose", cat({ DV(X.template element<I>().compose(Y.template element<I>()).coeffs())... }));
+  o.vec("inverse", X.inverse().coeffs());    o.vec("e_inverse", cat({ DV(X.template element<I>().inverse().coeffs())... }));
+  o.vec("between", X.between(Y).coeffs());   o.vec("e_between", cat({ DV(X.template element<I>().between(Y.template element<I>()).coeffs())... }));
+  o.vec("log", X.log().coeffs());            o.vec("e_log", cat({ DV(X.template element<I>().log().coeffs())... }));
+  o.vec("exp", t.exp().coeffs());            o.vec("e_exp", cat({ DV(t.template element<I>().exp().coeffs())... }));
+  o.vec("rplus", X.rplus(t).coeffs());       o.vec("e_rplus", cat({ DV(X.template element<I>().rplus(t.template element<I>()).coeffs())... }));
+  o.vec("lminus", X.lminus(Y).coeffs());     o.vec("e_lminus", cat({ DV(X.template element<I>().lminus(Y.template element<I>()).coeffs())... }));
+  o.end();
+}
+static void op_belem(Ctx& c) { belem_impl(c, std::make_index_sequence<G::BundleSize>()); }
+#else
+static void op_layout(Ctx&) {}
+static void op_belem(Ctx&) {}
+#endif
+
 int main(int argc, char** argv) {
   if (argc < 4) { std::fprintf(stderr, "usage: %s plan out seed\n", argv[0]); return 2; }
   install_terminate();
@@ -172,6 +210,7 @@ int main(int argc, char** argv) {
       else if (op == "jacs") op_jacs(c); else if (op == "adj") op_adj(c); else if (op == "adjexp") op_adjexp(c);
       else if (op == "generator") { op_generator(c); break; } else if (op == "algebra") op_algebra(c);
       else if (op == "isapprox") op_isapprox(c);
+      else if (op == "layout") { op_layout(c); break; } else if (op == "belem") op_belem(c);
       else { std::fprintf(stderr, "unknown op %s\n", op.c_str()); return 3; }
     }
   }
